@@ -8,7 +8,8 @@
 EXTENDS Def, Json
 
 CONSTANTS MaxAr,      \* maximal arity enumerated with the full pool
-          Pool3       \* size of the pool prefix used for arity 3 (0 = no arity 3)
+          Pool3,      \* size of the pool prefix used for arity 3 (0 = no arity 3)
+          Pure2       \* number of second arguments of the purity cases (0 = none)
 
 Names == <<"list", "vector", "cons", "concat", "vec", "nth", "first", "rest", "count", "empty?",
            "conj", "seq", "map", "apply", "take", "take-last", "drop", "drop-last", "subvec", "range",
@@ -33,17 +34,54 @@ ASSUME TLCSet(3, Norm(Pool))
 RECURSIVE Pow(_, _)
 Pow(b, e) == IF e = 0 THEN 1 ELSE b * Pow(b, e - 1)
 
+\* purity ("behave as pure functions"): one value v, made by an expression the reader / evaluator builds, is
+\* passed to the same builtin twice with different other arguments: both results are the model's and v is intact
+P2A == <<"[1 2 3]", "'(1 2 3)", "(rest [0 1 2 3])", "(subvec [1 2 3 4 5] 0 3)", "(range 0 5)", "(map inc [0 1 2])",
+         "(vec '(1 2 3))", "(concat [1 2] [3])", "{:a 1 :c 3}", "#{:a :c}", "(conj [1 2] 3)", "(cons 1 '(2 3))">>
+P2B == <<"[4]", "4", "'(5 6)", ":a", "0", "{:b 2}", "nil", "[:c 7]", "1", "inc">>
+ASSUME TLCSet(6, Norm([k \in 1..Len(P2A) |-> LET r == Ev(Parse(P2A[k]), 1, Base) IN
+                                               IF r.k = "val" THEN r.v ELSE Assert(FALSE, <<"P2A", k, r.k>>)]))
+ASSUME TLCSet(7, Norm([k \in 1..Len(P2B) |-> LET r == Ev(Parse(P2B[k]), 1, Base) IN
+                                               IF r.k = "val" THEN r.v ELSE Assert(FALSE, <<"P2B", k, r.k>>)]))
+
 VARIABLES b, ar, idx, ph
 
 Init == /\ ph = 0
         /\ b \in 1..Len(Names)
         /\ \/ ar \in 0..MaxAr /\ idx \in 0..(Pow(NP, ar) - 1)
            \/ Pool3 > 0 /\ MaxAr < 3 /\ ar = 3 /\ idx \in 0..(Pow(Pool3, 3) - 1)
+           \/ Pure2 > 0 /\ ar = -2 /\ idx \in 0..(Len(P2A) * Pure2 * Pure2 * 2 - 1)
 
 Resolve(a) == IF a.t = "fnref" THEN Lookup(Base.envs, 1, a.s).v ELSE a
 
+\* a purity case: (let [v A] (let [r1 (f v B1) r2 (f v B2)] (list r1 r2 v)))   (side = 0)
+\*            or  (let [v A] (let [r1 (f B1 v) r2 (f B2 v)] (list r1 r2 v)))   (side = 1)
+PureCase ==
+  LET na == Len(P2A)
+      ia == (idx % na) + 1
+      i1 == ((idx \div na) % Pure2) + 1
+      i2 == ((idx \div (na * Pure2)) % Pure2) + 1
+      side == (idx \div (na * Pure2 * Pure2)) % 2
+      name == Names[b]
+      av == TLCGet(6)[ia]
+      b1 == TLCGet(7)[i1]
+      b2 == TLCGet(7)[i2]
+      Call(x) == IF side = 0 THEN <<av, x>> ELSE <<x, av>>
+      Go(x) == IF name \in PureNames THEN Pure(name, Call(x))
+               ELSE LET r == CallBuiltin(name, Call(x), Base) IN [k |-> r.k, v |-> Abstract(r.v, r.st), ord |-> TRUE]
+      o1 == Go(b1)
+      o2 == Go(b2)
+      CallT(x) == IF side = 0 THEN "(" \o name \o " v " \o x \o ")" ELSE "(" \o name \o " " \o x \o " v)"
+      text == "(let [v " \o P2A[ia] \o "] (let [r1 " \o CallT(P2B[i1]) \o " r2 " \o CallT(P2B[i2]) \o "] (list r1 r2 v)))"
+      ok == o1.k = "val" /\ o2.k = "val" /\ o1.ord /\ o2.ord
+  IN [kind |-> "prog", tag |-> "pure2:" \o name, name |-> name, forms |-> <<>>, text |-> text, src |-> text,
+      opt |-> [route |-> "text"],
+      allow |-> [k |-> IF ok THEN "val" ELSE "unspec", v |-> IF ok THEN ListV(<<o1.v, o2.v, av>>) ELSE NilV,
+                 eff |-> <<>>, g |-> <<>>]]
+
 Next == /\ ph = 0 /\ ph' = 1 /\ UNCHANGED <<b, ar, idx>>
-        /\ LET pool == TLCGet(3)
+        /\ IF ar = -2 THEN PrintT("CASE " \o ToJson(PureCase)) ELSE
+            LET pool == TLCGet(3)
                base == IF ar = 3 /\ MaxAr < 3 THEN Pool3 ELSE NP
                args == [k \in 1..ar |-> pool[((idx \div Pow(base, k - 1)) % base) + 1]]
                vals == [k \in 1..ar |-> Resolve(args[k])]
